@@ -214,7 +214,8 @@ def annExempt (cls : Option (List Expr × List Expr)) : Bool :=
   | some (decs, bases) => decs.any isDataclassDecorator || bases.any isTrickyBase
   | none => false
 
-/-- `visit_AnnAssign`; `cls` = (decorators, bases) when the parent node is a ClassDef -/
+/-- `visit_AnnAssign`; `cls` = (decorators, bases) when the statement's namespace is a ClassDef (the class body or a
+    compound statement nested in it) -/
 def annAssign (o : AnnOpts) (cls : Option (List Expr × List Expr)) (tg ann : Expr) (v : Option Expr) (simple : Bool) : Stmt :=
   if !annEnabled o cls then .annAssign tg ann v simple
   else if annExempt cls then .annAssign tg ann v simple
@@ -228,22 +229,22 @@ def annStmt (o : AnnOpts) (cls : Option (List Expr × List Expr)) : Stmt → Stm
     .functionDef a n (stripArguments o args) (annBody o none body) decs (if o.returns then none else ret) tps
   | .classDef n bases kws body decs tps => .classDef n bases kws (annBody o (some (decs, bases)) body) decs tps
   | .annAssign tg ann v simple => annAssign o cls tg ann v simple
-  | .for_ a tg it body orelse => .for_ a tg it (annBody o none body) (annBody o none orelse)
-  | .while_ c body orelse => .while_ c (annBody o none body) (annBody o none orelse)
-  | .if_ c body orelse => .if_ c (annBody o none body) (annBody o none orelse)
-  | .with_ a items body => .with_ a items (annBody o none body)
-  | .try_ st body hs orelse fin => .try_ st (annBody o none body) (annHandlers o hs) (annBody o none orelse) (annBody o none fin)
-  | .match_ s cases => .match_ s (annCases o cases)
+  | .for_ a tg it body orelse => .for_ a tg it (annBody o cls body) (annBody o cls orelse)
+  | .while_ c body orelse => .while_ c (annBody o cls body) (annBody o cls orelse)
+  | .if_ c body orelse => .if_ c (annBody o cls body) (annBody o cls orelse)
+  | .with_ a items body => .with_ a items (annBody o cls body)
+  | .try_ st body hs orelse fin => .try_ st (annBody o cls body) (annHandlers o cls hs) (annBody o cls orelse) (annBody o cls fin)
+  | .match_ s cases => .match_ s (annCases o cls cases)
   | s => s
 def annBody (o : AnnOpts) (cls : Option (List Expr × List Expr)) : List Stmt → List Stmt
   | [] => []
   | s :: ss => annStmt o cls s :: annBody o cls ss
-def annHandlers (o : AnnOpts) : List Handler → List Handler
+def annHandlers (o : AnnOpts) (cls : Option (List Expr × List Expr)) : List Handler → List Handler
   | [] => []
-  | .mk ty n body :: hs => .mk ty n (annBody o none body) :: annHandlers o hs
-def annCases (o : AnnOpts) : List MatchCase → List MatchCase
+  | .mk ty n body :: hs => .mk ty n (annBody o cls body) :: annHandlers o cls hs
+def annCases (o : AnnOpts) (cls : Option (List Expr × List Expr)) : List MatchCase → List MatchCase
   | [] => []
-  | .mk p g body :: cs => .mk p g (annBody o none body) :: annCases o cs
+  | .mk p g body :: cs => .mk p g (annBody o cls body) :: annCases o cls cs
 end
 
 def removeAnnotations (o : AnnOpts) (m : Module) : Module := ⟨annBody o none m.body⟩
